@@ -129,6 +129,8 @@ impl RelayTransport {
 //@|     old(self).pending_item is Some ==> (r matches Poll::Ready(Some(d)) && *d == old(self).pending_item->0),
 //@|     r is Pending ==> wake_registered(task_of(old(cx))) && final(self).pending_item is None,
 //@|     r matches Poll::Ready(None) ==> final(self).pending_item is None,
+//@|     // the returned reference IS the head-of-line slot: what the caller does through it is what stays queued
+//@|     r matches Poll::Ready(Some(d)) ==> final(self).pending_item == Some(*final(d)),
 //@end
 
 //@fn iroh/src/socket/transports/relay.rs RelayTransport::poll_recv props=C17 ret=r
@@ -151,6 +153,22 @@ impl RelayTransport {
 //@|     forall|j: int| 0 <= j < num_msgs ==> slot_ok(#[trigger] bufs@[j], metas@[j]),
 //@| ensures
 //@|     num_msgs == 0 ==> wake_registered(task_of(old(cx))) || self_woken(task_of(old(cx))),
+//@ins before 1
+//@- let num_segments = dm
+//@| let ghost head_before = dm.datagrams.contents@;
+//@ins before 2
+//@- break;
+//@| proof {
+//@|     // conservation (discard path): exactly the taken datagram(s) left the head-of-line batch, nothing else is dropped
+//@|     assert(pending_bytes(*self) =~= head_before.subrange(dm.datagrams.contents@.len() as int, head_before.len() as int));
+//@| }
+//@ins before 1
+//@- num_msgs += 1;
+//@| proof {
+//@|     // conservation (delivery path): what was delivered plus what stays queued is what was queued, in order
+//@|     assert(pending_bytes(*self) =~= head_before.subrange(metas@[i as int].len as int, head_before.len() as int));
+//@|     assert(bufs@[i as int]@.subrange(0, metas@[i as int].len as int) =~= head_before.subrange(0, metas@[i as int].len as int));
+//@| }
 //@rwx A3 1
 //@- \.map_or\(1, \|ss\| (.+?)\);\n
 //@+ .map_or(1, |ss: NonZeroU16| -> (n: usize) ensures n >= 1 { \1 });\n
